@@ -15,6 +15,9 @@ CHECKS = {
  "C01": ("model-based stateful PBT (proptest) + event-replay oracle",
          "Generated operation histories over nine fungible-token contracts (4 harness flavours wiring Base/AllowList/BlockList/FungibleVotes, 5 example contracts) with state-relative amounts and explicit authorization entries; after every step total_supply == sum of balances (BigInt), supply delta by op kind, failed call leaves the dump unchanged, and folding the emitted mint/burn/transfer events from genesis reproduces every balance.",
          "DESIGN.md §4 C01"),
+ "C03": ("model-based PBT (proptest): executable transcription of the statement vs __check_auth, scripted policy/verifier mocks, real Ed25519 verifier, end-to-end probes",
+         "Generated rule-set histories (add/remove rule, signer, policy, valid_until, ledger advance) on the example multisig account followed by crafted (signatures, context batch) probes through try_invoke_contract_check_auth and end-to-end require_auth; the verdict must equal an executable transcription of the statement (all supplied signatures verify; per context newest-first, type-specific before Default, unexpired rule whose signers/policies are met; signers outside the rule never count) and the mock policies' enforce log must be exactly the chosen rule's policies once per context.",
+         "DESIGN.md §4 C03"),
  "C02": ("model-based stateful PBT (proptest) with explicit authorization entries (no mock_all_auths)",
          "Generated histories of approve/transfer/transfer_from/burn/burn_from/mint/ledger-advance over nine fungible-token contracts, every call carrying an explicit authorization set in one of the modes Exact/Drop/Swap/Tamper/Surplus; safety oracle from the statement: a balance decreases only with the holder's exact entry or a spender's entry plus a live sufficient allowance that then drops by exactly the amount; allowances never exceed approved-minus-spent, are zero after live_until (also past the entry's storage TTL) and change only by the owner's approve or by being spent.",
          "DESIGN.md §4 C02"),
